@@ -28,6 +28,9 @@ type UnitResult struct {
 	GenTime  float64
 	Lemma    bool
 	Inlined  bool
+	LoopDrift   []string
+	AssertDrift []string
+	Dropped     []string
 }
 
 func (x *Exec) propsOf(c Clause, u *FuncUnit) []string {
@@ -40,7 +43,7 @@ func (x *Exec) propsOf(c Clause, u *FuncUnit) []string {
 // VerifyUnit generates all obligations of one function under contract.
 func VerifyUnit(ld *Loaded, u *FuncUnit, cfg *Config) (res *UnitResult) {
 	t0 := time.Now()
-	res = &UnitResult{Unit: u.Pkg.Name + "." + u.Key, Pkg: u.Pkg.Path}
+	res = &UnitResult{Unit: u.Pkg.Name + "." + u.Key, Pkg: u.Pkg.Path, LoopDrift: u.LoopDrift, AssertDrift: u.AssertDrift, Dropped: u.Dropped}
 	if u.C.Trusted || u.IfaceT != nil || u.C.Extern {
 		res.Trusted = true
 		return res
